@@ -226,3 +226,43 @@ Proof.
     assert (take_outcomes (probe_shape LWorld false (ncols_of d a)) (rej_world false) = Some os) as -> by exact Hos.
     rewrite bool_decide_eq_false_2 by (intros [? ?]; done). rewrite Hck, Hpc. done.
 Qed.
+
+(** The same at the level of one archetype (ArchetypeCanResolve: contains, resolve, to_direct, view, borrow),
+    including the case of a handle carrying another archetype's id, which every path must report absent. *)
+Theorem probe_arch_oracle_accepts cfg d qs st sst w sw i e a0 b bd s x : RInv d st ->
+  cur_world st = Some w -> issued st !! i = Some e -> snd e <> 0%N -> key32 e ->
+  wd_archs d !! b = Some bd -> w !! b = Some s -> (da_id bd = key_arch_id (fst e) -> eslot e < cap s) ->
+  cur_sworld sst = Some sw -> s_issued sst !! i = Some (e, a0) -> sw !! b = Some x ->
+  (da_id bd = key_arch_id (fst e) -> belief_true s x e) ->
+  exists obs, step cfg d qs st (OProbe (LArch b) KEnt TAny (RIssued i)) = Some (st, obs) /\
+              spec_step cfg d qs sst (OProbe (LArch b) KEnt TAny (RIssued i)) obs = inr sst.
+Proof.
+  intros HR Hcur Hiss Hv Hk Had Hs Hc Hsw Hsi Hx Hbel0.
+  pose proof (step_probe_any_arch cfg d qs st w (RIssued i) e b bd s HR Hcur ltac:(exact Hiss) Hv Hk Had Hs Hc) as Hstep.
+  eexists. split; [exact Hstep|].
+  destruct HR as (HW & _ & _).
+  assert (HWI : WInv d w).
+  { unfold cur_world in Hcur. destruct (worlds st !! cur st) as [ow|] eqn:Hl; [|done]. cbn in Hcur. subst ow.
+    rewrite list.Forall_forall in HW. apply (HW (Some w)). by eapply elem_of_list_lookup_2. }
+  destruct (Forall2_lookup_l _ _ _ _ _ HWI Had) as (s' & Hs' & (HI & Haid & Hncols)).
+  assert (Some s' = Some s) as [= ->] by (etrans; [symmetry; exact Hs'|exact Hs]).
+  cbn [spec_step]. rewrite Hsw, Hsi. cbn [fmap option_fmap option_map fst].
+  unfold expect_key. cbn [fst snd]. destruct (N.eqb_spec (snd e) 0) as [|_]; [done|]. rewrite Had.
+  destruct (decide (da_id bd = key_arch_id (fst e))) as [Hid|Hid].
+  - rewrite Hid, N.eqb_refl. rewrite Hx. destruct (Hbel0 Hid) as [Hsync Hbel]. rewrite Hsync.
+    unfold aid_of, ncols_of. rewrite Had, <- Haid.
+    destruct (list_find (fun y => y = e) (ents s)) as [[dd y]|] eqn:Hlf.
+    + destruct Hbel as (se & Hse & Habs). rewrite Hse, Habs. cbn [fmap option_fmap option_map snd default from_option id].
+      apply list_find_Some in Hlf as (Hdd & _ & _).
+      assert (Hd : dd < len s) by (rewrite <- (i_lents s HI); by eapply lookup_lt_Some).
+      destruct (abs_at_some s dd HI Hd) as (e' & r' & Ha' & _ & Hlr). rewrite Habs in Ha'. injection Ha' as <- <-.
+      set (prop := if 0 <? count_h e (default [] (s_wissued sst !! s_cur sst)) then 1%N else 3%N).
+      destruct (oracle_accepts_stored_arch prop b s dd e (se_vals se) HI Hd) as (os & Hos & Hck & Hpc).
+      rewrite <- Hncols, <- Hlr. rewrite Hos.
+      rewrite bool_decide_eq_true_2 by by eexists. rewrite Hck, Hpc. done.
+    + rewrite Hbel. cbn [fmap option_fmap option_map].
+      set (prop := if 0 <? count_h e (default [] (s_wissued sst !! s_cur sst)) then 1%N else 3%N).
+      destruct (oracle_accepts_unstored_arch prop b (length (da_comps bd)) (Some e) None (aid s)) as (os & Hos & Hck & Hpc).
+      rewrite Hos. rewrite bool_decide_eq_false_2 by (intros [? ?]; done). rewrite Hck, Hpc. done.
+  - destruct (N.eqb_spec (da_id bd) (key_arch_id (fst e))) as [E|_]; [done|]. done.
+Qed.
